@@ -229,7 +229,11 @@ func firstMarkers(f *modfile.File) map[string]marks {
 		}
 		if len(r.Syntax.Suffix) > 0 {
 			t := strings.TrimSpace(strings.TrimPrefix(r.Syntax.Suffix[0].Token, "//"))
-			t = strings.TrimSpace(strings.TrimPrefix(strings.TrimPrefix(t, "indirect;"), "indirect"))
+			if f := strings.Fields(t); len(f) == 1 && f[0] == "indirect" {
+				t = ""
+			} else if len(f) > 1 && f[0] == "indirect;" {
+				t = strings.TrimSpace(strings.TrimPrefix(t, "indirect;"))
+			}
 			mk.suffix = t
 		}
 		m[r.Mod.Path] = mk
@@ -462,7 +466,12 @@ func runMod(c caseT) (msg string, out string) {
 			if b, ok := st.(*modfile.LineBlock); ok && b.Token[0] == "require" {
 				d, i := 0, 0
 				for _, l := range b.Line {
-					ind := len(l.Suffix) > 0 && (strings.TrimSpace(strings.TrimPrefix(l.Suffix[0].Token, "//")) == "indirect" || strings.HasPrefix(strings.TrimSpace(strings.TrimPrefix(l.Suffix[0].Token, "//")), "indirect;"))
+					// the documented marker: the comment's first field is "indirect" (alone) or "indirect;"
+					ind := false
+					if len(l.Suffix) > 0 {
+						f := strings.Fields(strings.TrimPrefix(l.Suffix[0].Token, "//"))
+						ind = len(f) == 1 && f[0] == "indirect" || len(f) > 1 && f[0] == "indirect;"
+					}
 					if ind {
 						i++
 					} else {
@@ -653,6 +662,10 @@ func Run(r *fw.Run) {
 			firsts = append(firsts, string(rune(c)))
 		}
 		firsts = append(firsts, "é", "\u212a", "%s", "%d", "//", "indirect", "i", "; ")
+		// near misses of the marker itself
+		for _, com := range []string{"// indirectly used", "// indirect;x y", "//indirect", "// indirect ; z", "// Indirect", "// indirect;", "// indirect;; w", "//  indirect;  spaced  out", "// not indirect", "// indirect\tx"} {
+			sds = append(sds, "module example.com/m\n\ngo 1.21\n\nrequire a.com/x v1.0.0 "+com+"\n", "module example.com/m\n\ngo 1.21\n\nrequire (\n\ta.com/x v1.0.0 "+com+"\n\tb.com/y v1.0.0\n)\n")
+		}
 		for _, f := range firsts {
 			for _, com := range []string{"// indirect; " + f + "yz q", "// " + f + "yz q", "// indirect;" + f, "//" + f} {
 				sds = append(sds, "module example.com/m\n\ngo 1.21\n\nrequire a.com/x v1.0.0 "+com+"\n")
